@@ -1,8 +1,17 @@
 """Thin z3 wrapper that counts queries, time and distinct assertion sets; picklable stats."""
 import hashlib
+import os
+import subprocess
+import tempfile
 import time
 
 import z3
+
+# Second solver (thorough tier): a deterministic sample of the queries (by hash of the assertion text) is re-decided
+# by the system z3 4.8.12 binary on the SMT-LIB2 dump.  Agreement / disagreement / inconclusive are counted; a
+# disagreement of definite verdicts is a harness error (raised by Ctx.finish), never a violation.
+CROSS_BIN = "/usr/bin/z3"
+CROSS_EVERY = 16
 
 
 class Stats:
@@ -10,6 +19,7 @@ class Stats:
         self.wall = 0.0
         self.counts = {}
         self.hashes = set()
+        self.crossed = set()
 
     def bump(self, k, n=1):
         self.counts[k] = self.counts.get(k, 0) + n
@@ -49,11 +59,39 @@ def check(assertions, timeout_ms=10000, want_model=False, stats=None, count=True
     if count:
         st.bump("solver_queries")
         st.hashes.add(h)
+    if count and r in ("sat", "unsat") and os.environ.get("VERIF_CROSSCHECK") == "1" and int(h, 16) % CROSS_EVERY == 0:
+        _cross(s, r, h, st)
     if r == "sat":
         return "sat", (s.model() if want_model else None)
     if r == "unsat":
         return "unsat", None
     return "unknown", None
+
+
+def _cross(solver, verdict, h, st):
+    if h in st.crossed:
+        return
+    st.crossed.add(h)
+    try:
+        with tempfile.NamedTemporaryFile("w", suffix=".smt2", delete=False) as f:
+            f.write(solver.to_smt2())
+            path = f.name
+        try:
+            t = time.time()
+            out = subprocess.run([CROSS_BIN, "-smt2", "-T:20", path], capture_output=True, text=True, timeout=40).stdout
+            st.bump("cross_wall_ms", int((time.time() - t) * 1000))
+        finally:
+            os.unlink(path)
+    except Exception:  # noqa: BLE001 - missing binary, time-out of the subprocess: inconclusive
+        st.bump("cross_inconclusive")
+        return
+    first = out.strip().splitlines()[0].strip() if out.strip() else ""
+    if "(error" in out or first not in ("sat", "unsat"):
+        st.bump("cross_inconclusive")
+    elif first == verdict:
+        st.bump("cross_agree")
+    else:
+        st.bump("cross_disagree")
 
 
 def prove(premises, goal, timeout_ms=10000, stats=None):
